@@ -34,14 +34,14 @@ def parseBits? (s : String) : Option (List Bool) :=
 
 structure DSt where
   d : Dev
-  s : S
+  s : Sys
   w : Option W      -- the specification automaton run along the trace (none = rejected)
 
 def step1 (st : DSt) (ws : List String) : DSt × String :=
   match ws with
   | ["dev", m, nl, nm, bits] =>
     match m.toNat?, nl.toNat?, nm.toNat?, parseBits? bits with
-    | some m, some nl, some nm, some bs => ({ d := { magic := m ≠ 0, nLog := nl, nMem := nm, ext := bs }, s := S.init, w := some {} }, "ok")
+    | some m, some nl, some nm, some bs => ({ d := { magic := m ≠ 0, nLog := nl, nMem := nm, ext := bs }, s := Sys.init, w := some {} }, "ok")
     | _, _, _, _ => (st, "bad-op")
   | ["status"] =>
     (st, "ok waiting=" ++ (if st.s.w.waitOpen then "open" else if st.s.w.waitClose then "close" else "none") ++
@@ -54,6 +54,6 @@ def step1 (st : DSt) (ws : List String) : DSt × String :=
       let r := step st.d st.s op
       let s := r.1
       let outs := if r.2.isEmpty then "-" else ",".intercalate (r.2.map showOut)
-      ({ st with s := s, w := st.w.bind fun w => (wfOp w op).bind (wfOuts · r.2) }, s!"ok {outs} st={showSt s.st} link={b01 s.link} open={b01 s.w.isOpen} par={s.parToc} vals={s.vals.length} log={s.logGot} conn={b01 s.connTs}")
+      ({ st with s := s, w := st.w.bind fun w => (wfOp w op).bind (wfOuts · r.2) }, s!"ok {outs} st={showSt s.c.st} link={b01 s.c.link} open={b01 s.w.isOpen} par={s.c.parToc} vals={s.c.vals.length} log={s.c.logGot} conn={b01 s.c.connTs}")
 
-def main : IO Unit := runProto ({ d := { magic := true, nLog := 0, nMem := 0, ext := [] }, s := S.init, w := some {} } : DSt) step1
+def main : IO Unit := runProto ({ d := { magic := true, nLog := 0, nMem := 0, ext := [] }, s := Sys.init, w := some {} } : DSt) step1
